@@ -80,8 +80,12 @@ class DesignRecorder(contextlib.AbstractContextManager):
     """wraps gnpy.core.network.set_one_amplifier / select_edfa / preselect_multiband_amps for the duration of a design.
     The wrappers call the original and log arguments, the amplifier's settings before the call and the result."""
 
-    def __init__(self, net=None):
+    def __init__(self, net=None, loaded=None):
+        """loaded: the recorder of an EARLIER design of the same network objects.  The operator settings of an amplifier
+        (u_*) are then the ones that recorder saw when the network had just been loaded - the configuration - and not
+        what the amplifier carries when it is designed again (which is the previous design's own output)."""
         from gnpy.core import elements as E
+        self.loaded = loaded.amp_calls if loaded is not None else {}
         # multiband type the operator gave each multiband amplifier BEFORE the design (the design overwrites it)
         self.mb_pre = {id(n): (n.params.type_variety or '') for n in (net.nodes() if net is not None else [])
                        if isinstance(n, E.Multiband_amplifier)}
@@ -103,6 +107,9 @@ class DesignRecorder(contextlib.AbstractContextManager):
                      tilt_target=float(tilt_target),
                      u_gain=node.effective_gain, u_dp=node.operational.delta_p, u_voa=node.out_voa,
                      u_in_voa=node.in_voa, u_variety=node.params.type_variety, select=None)
+            first = rec.loaded.get(id(node))
+            if first is not None:
+                r.update({f: first[f] for f in ('u_gain', 'u_dp', 'u_voa', 'u_in_voa', 'u_variety')}, redesign=True)
             rec._current = r
             try:
                 out = orig_set_one(node, prev_node, next_node, power_mode, prev_voa, prev_dp, pref_ch_db,
@@ -310,9 +317,20 @@ def with_lumped_losses(data, every=2, loss_db=2.0):
 NXT_ROADM, NXT_SPAN, NXT_AMP, NXT_OTHER = 0, 1, 2, 3
 
 
-def oms_profile(net, eq, ref, rec, ingress, chain, egress, bname, band):
+def exported_settings(a):
+    """(gain, dp, voa) of amplifier `a` as the network EXPORTS them (Edfa.to_json, what the tool writes out and what a
+    later session loads again): the designed operating point whatever has been propagated since the design.  In gain
+    mode the export carries no delta_p; the design's own computed offset is taken then."""
+    op = a.to_json['operational']
+    dp = op['delta_p'] if op['delta_p'] is not None else a._delta_p
+    return op['gain_target'], dp, op['out_voa']
+
+
+def oms_profile(net, eq, ref, rec, ingress, chain, egress, bname, band, exported=False):
     """one OMS x design band -> dict of floats/objects describing what the design faced and what it produced.
-    Losses are summed from the elements as they stand after the design (what propagation will apply)."""
+    Losses are summed from the elements as they stand after the design (what propagation will apply).
+    exported=True: the designed settings are read from the network's export (to be used once the elements have
+    been propagated: the attributes then hold the operating point of the last propagated load)."""
     from gnpy.core import elements as E
     pref_ch = 10 * math.log10(ref.power * 1e3)
     if isinstance(ingress, E.Roadm):
@@ -352,9 +370,10 @@ def oms_profile(net, eq, ref, rec, ingress, chain, egress, bname, band):
         call = rec.amp_calls.get(id(a)) if rec is not None else None
         lib = eq['Edfa'].get(a.params.type_variety)
         # snapshot NOW: propagating through an Edfa later overwrites effective_gain when it clamps to p_max
+        g_, dp_, voa_ = exported_settings(a) if exported else (a.effective_gain, a._delta_p, a.out_voa)
         amps.append(dict(el=el, amp=a, uid=el.uid, L=loss_acc, prev_passive=n_passive, raman_before=raman,
                          nxt=nxt, Ln=nxt_loss, raman_after=nraman, call=call, pos=k,
-                         gain=a.effective_gain, dp=a._delta_p, delta_p=a.delta_p, voa=a.out_voa, in_voa=a.in_voa,
+                         gain=g_, dp=dp_, delta_p=a.delta_p, voa=voa_, in_voa=a.in_voa,
                          variety=a.params.type_variety, p_max=a.params.p_max, flatmax=a.params.gain_flatmax,
                          gain_min=a.params.gain_min, out_voa_auto=bool(a.params.out_voa_auto),
                          in_library=lib is not None))
@@ -369,32 +388,34 @@ def design_bands_of(ingress, head_uid):
 
 
 # ------------------------------------------------------------------------------------ propagation of the design load
-def design_load(eq, bands, pref_ch_dbm, tx_power_dbm=None):
+def design_load(eq, bands, pref_ch_dbm, tx_power_dbm=None, boost_db=0.0):
     """the reference comb the network was designed for: in every design band, channels on the band's spacing with the
-    reference baud rate / roll-off, launched at the reference power"""
+    reference baud rate / roll-off, launched at the reference power.
+    boost_db > 0: NOT the design load but a heavier what-if load on the same channels - every carrier is transmitted
+    boost_db higher and asks the ROADMs for boost_db above their target (per-channel power offset)"""
     from gnpy.core.info import create_input_spectral_information
     si0 = eq['SI']['default']
-    p = 10 ** ((pref_ch_dbm if tx_power_dbm is None else tx_power_dbm) / 10) * 1e-3
+    p = 10 ** (((pref_ch_dbm if tx_power_dbm is None else tx_power_dbm) + boost_db) / 10) * 1e-3
     out = None
     for b in bands:
         s = create_input_spectral_information(f_min=b['f_min'], f_max=b['f_max'], roll_off=si0.roll_off,
                                               baud_rate=si0.baud_rate, spacing=b['spacing'], tx_osnr=si0.tx_osnr,
-                                              tx_power=p)
+                                              tx_power=p, delta_pdb=boost_db)
         out = s if out is None else out + s
     return out
 
 
-def propagate_oms(net, eq, ref, ingress, chain, egress, bands, tx_w=None):
-    """real propagation of the design load over one OMS: ingress (ROADM add path or transceiver) -> line -> egress
-    ROADM.  Returns {'after': {id(element or band-amp): (sig_w, tot_w) per band name}, 'roadm': ...} or None when the
-    OMS cannot be driven (no add port etc.)."""
+def propagate_oms(net, eq, ref, ingress, chain, egress, bands, tx_w=None, boost_db=0.0):
+    """real propagation of the design load (boost_db = 0) or of a heavier load over one OMS: ingress (ROADM add path
+    or transceiver) -> line -> egress ROADM.  Returns {'after': {id(element or band-amp): (sig_w, tot_w) per band
+    name}, 'roadm': ...} or None when the OMS cannot be driven (no add port etc.)."""
     import numpy as np
     from gnpy.core import elements as E
     pref_ch = 10 * math.log10(ref.power * 1e3)
     si_cfg = eq['SI']['default']
     # launch power: the one of the request designed_network hands back for propagation (tx_w), else SI tx_power_dbm
     tx_dbm = 10 * math.log10(tx_w * 1e3) if tx_w else si_cfg.tx_power_dbm
-    si = design_load(eq, bands, pref_ch, tx_dbm)
+    si = design_load(eq, bands, pref_ch, tx_dbm, boost_db)
     obs = {}
 
     def per_band(s):
@@ -528,6 +549,17 @@ def design_json(json_data, eq, args_power=None):
     return net, ref, rec
 
 
+def redesign(net, eq, ref, rec):
+    """the SAME network objects are designed a second time for the same reference channel, the way the tools do it (power
+    sweep step of transmission_simulation, planner with redesign: design_network on the designed graph).  Returns the
+    recorder of this second design; the operator settings it reports are the ones `rec` saw on the network as loaded."""
+    from gnpy.core.network import design_network
+    with DesignRecorder(net, loaded=rec) as rec2:
+        design_network(ref, net, eq, set_connector_losses=False, verbose=False)
+    rec2.req_tx_power_w = getattr(rec, 'req_tx_power_w', None)
+    return rec2
+
+
 def design_json_partial(json_data, eq):
     """like design_json, but an exception raised by the design is returned instead of propagated, together with the
     network as far as it was designed and everything the recorders saw up to that point"""
@@ -556,9 +588,17 @@ def _opt(x):
     return NONE if x is None else udb(x)
 
 
-def oms_traces(net, eq, ref, rec, name, mode, propagate=True, stats=None, only=None):
+USED = '~used'          # suffix of the name of a trace observed after the designed network has been used
+
+
+def oms_traces(net, eq, ref, rec, name, mode, propagate=True, stats=None, only=None, reuse_db=None):
     """all OMS x design-band traces of one designed network in the integer format of Trace_DesignPower, plus a
-    parallel list of human-readable context (uids) used only to describe a violation"""
+    parallel list of human-readable context (uids) used only to describe a violation.
+    reuse_db: the designed network is a state that outlives one propagation.  Every OMS that could be driven is then
+    crossed a second and a third time through the SAME elements - by a what-if load reuse_db above the design load,
+    then by the design load again - and observed once more: the designed settings as the network exports them after
+    that use and the powers of this later propagation of the design load make a second trace (name + USED) that is
+    judged by the same clauses."""
     from gnpy.core import elements as E
     sp = eq['Span']['default']
     rng = list(sp.delta_power_range_db)
@@ -577,11 +617,27 @@ def oms_traces(net, eq, ref, rec, name, mode, propagate=True, stats=None, only=N
                 profs.append(pr)
         todo.append((ingress, chain, egress, bands, profs))
     # every profile is snapshotted before any propagation: an Edfa crossing overwrites effective_gain when it clamps
+    later = []
     for ingress, chain, egress, bands, profs in todo:
         obs = propagate_oms(net, eq, ref, ingress, chain, egress, bands,
                             tx_w=getattr(rec, 'req_tx_power_w', None)) if propagate else None
         if obs is not None and 'exc' in obs and stats is not None:
             stats.setdefault('propagation_exceptions', []).append(f'{name}:{chain[0].uid}: {obs["exc"][:120]}')
+        later.append((ingress, chain, egress, bands, profs, obs, name))
+        if reuse_db and obs is not None and 'exc' not in obs and not any(isinstance(el, E.RamanFiber) for el in chain):
+            tx_w = getattr(rec, 'req_tx_power_w', None)
+            heavy = propagate_oms(net, eq, ref, ingress, chain, egress, bands, tx_w=tx_w, boost_db=reuse_db)
+            again = propagate_oms(net, eq, ref, ingress, chain, egress, bands, tx_w=tx_w)
+            if heavy is not None and 'exc' in heavy:
+                again = heavy                                  # reported by the caller (stats / exc marker)
+            profs2 = [oms_profile(net, eq, ref, rec, ingress, chain, egress, pr['bname'], pr['band'], exported=True)
+                      for pr in profs]
+            if stats is not None:
+                stats['oms_used_again'] = stats.get('oms_used_again', 0) + 1
+                if again is not None and 'exc' in again:
+                    stats.setdefault('propagation_exceptions', []).append(f'{name}{USED}:{chain[0].uid}: {again["exc"][:120]}')
+            later.append((ingress, chain, egress, bands, profs2, again, name + USED))
+    for ingress, chain, egress, bands, profs, obs, nm in later:
         for pr in profs:
             bn = pr['bname']
             pref = pr['pref_ch']
@@ -620,7 +676,7 @@ def oms_traces(net, eq, ref, rec, name, mode, propagate=True, stats=None, only=N
                 if tgt is not None and eo and ei and eo[2] > 0 and ei[2] > 0:
                     rd = dict(judged=1, tgt=udb(tgt), obs=udb(w2dbm(eo[1] / eo[2])), inp=udb(w2dbm(ei[1] / ei[2])),
                               maxloss=udb(obs['egress_maxloss']))
-            tname = f'{name}|{"power" if mode else "gain"}|{chain[0].uid}|{bn}'
+            tname = f'{nm}|{"power" if mode else "gain"}|{chain[0].uid}|{bn}'
             traces.append(dict(name=tname, mode=1 if mode else 0, slope=int(round(sp.power_slope * 1000)),
                                ref=udb(sp.span_loss_ref), lo=udb(rng[0]), hi=udb(rng[1]), step=udb(rng[2]),
                                prefTot=udb(pref + 10 * math.log10(pr['nch'])), pref=udb(pref),
@@ -801,4 +857,4 @@ __all__ = ['SHIPPED', 'LoadError', 'load_equipment', 'load_topology', 'DesignRec
            'design_bands_of', 'propagate_oms', 'design_load', 'line_topology', 'udb', 'INF', 'NONE', 'w2dbm',
            'roadm_ref_target_dbm', 'band_name', 'nch_of', 'ndjson', 'NXT_ROADM', 'NXT_SPAN', 'NXT_AMP', 'NXT_OTHER',
            'oms_traces', 'step_in_domain', 'passive_loss', 'amp_members', 'synthetic_equipment', 'design_json', 'design_json_partial',
-           'forward_oms', 'selection_traces', 'stripped_topology', 'library_models', 'selection_context', 'EMPTY_C', 'mhz']
+           'forward_oms', 'redesign', 'USED', 'exported_settings', 'selection_traces', 'stripped_topology', 'library_models', 'selection_context', 'EMPTY_C', 'mhz']
